@@ -281,4 +281,38 @@ theorem absNode_rnd_cmp (rnf : Bool) (F : Flow) (n : NodeM) (r : RandomR) (saveN
   · simp [renderNode, hacts]
   · rw [hexits, List.map_map]; rfl
 
+
+/-! ### corresponding destinations -/
+
+theorem lastTgt_eq (es : List OutEdge) (p : OutEdge → Bool) :
+    lastTgt es p = (((es.filter p).getLast?).map (·.tgt)).bind tgtDest := by
+  unfold lastTgt
+  cases (es.filter p).getLast? <;> rfl
+
+/-- corresponding destinations: what a compiled destination `d` and a reference target `t` with
+`DestIs M ns d t` resolve to in the two flows -/
+def DR (F r : Flow) (M : Maps) (ns : Array NodeM) (es : List OutEdge) (a b : Option (Option Nat)) : Prop :=
+  ∃ (d : Dest) (t : Option Target), DestIs M ns d t ∧ (∀ k, t = some (Target.row k) → ∃ e ∈ es, e.tgt = Target.row k) ∧
+    a = destIdx r (t.bind tgtDest) ∧ b = destIdx F (renderDest d)
+
+/-- two abstract nodes that differ in how destinations resolve only -/
+def AbsRel (R : Option (Option Nat) → Option (Option Nat) → Prop) (a b : ANode) : Prop :=
+  b.acts = a.acts ∧ b.ask = a.ask ∧ List.Forall₂ R a.dests b.dests
+
+theorem forall2_flip_map {α β γ δ} {R : α → β → Prop} {S : γ → δ → Prop} {f : β → γ} {g : α → δ} :
+    ∀ {l1 : List α} {l2 : List β}, List.Forall₂ R l1 l2 → (∀ a b, b ∈ l2 → R a b → S (f b) (g a)) →
+      List.Forall₂ S (l2.map f) (l1.map g) := by
+  intro l1 l2 h
+  induction h with
+  | nil => intro _; exact .nil
+  | cons hab _ ih =>
+    intro himp
+    exact .cons (himp _ _ (by simp) hab) (ih (fun a b hb => himp a b (by simp [hb])))
+
+theorem forall2_replicate {α β} {R : α → β → Prop} {a : α} {b : β} (h : R a b) (m : Nat) :
+    List.Forall₂ R (List.replicate m a) (List.replicate m b) := by
+  induction m with
+  | zero => exact .nil
+  | succ m ih => exact .cons h ih
+
 end Rpft.CoreSheet
